@@ -96,6 +96,22 @@ func (g *gen) astValidAxioms(key, name, sort string) {
 	}
 	g.declTnode()
 	sel := app("select", name, n)
+	if g.depthFacts && tf != "Ident.Obj" && tf != "File.Scope" && tf != "File.Unresolved" {
+		// a parsed tree is finite and acyclic (only Ident.Obj and the scopes point back): a child is strictly less deep
+		if !g.declared["astdepth"] {
+			g.declareFun("astdepth", []string{"Int"}, "Int")
+			dn := g.freshName("dp")
+			g.assumeGlobal(fmt.Sprintf("(forall ((%s Int)) (! (>= (astdepth %s) 0) :pattern ((astdepth %s))))", dn, dn, dn))
+		}
+		switch {
+		case sort == arr("Int", "Int") && isPtr:
+			g.assumeGlobal(fmt.Sprintf("(forall ((%s Int)) (! (=> (and (tnode %s) (not (= %s 0))) (< (astdepth %s) (astdepth %s))) :pattern (%s)))", n, n, sel, sel, n, sel))
+		case sort == arr("Int", "Iface"):
+			g.assumeGlobal(fmt.Sprintf("(forall ((%s Int)) (! (=> (and (tnode %s) (not (= (i_tag %s) 0))) (< (astdepth (i_val %s)) (astdepth %s))) :pattern (%s)))", n, n, sel, sel, n, sel))
+		case sort == arr("Int", "Slice") && astNodeLists[tf]:
+			g.astListDepth(tf, name)
+		}
+	}
 	switch {
 	case sort == arr("Int", "Int") && isPtr:
 		if !astNilable[tf] {
@@ -197,6 +213,26 @@ func (g *gen) astListAxioms(tf, name string) {
 	g.assumeGlobal(fmt.Sprintf("(forall ((%s Int)) (! (=> (tnode %s) (astlist (s_base %s))) :pattern (%s)))", n, n, sl, sl))
 	if astNonEmptyLists[tf] {
 		g.assumeGlobal(fmt.Sprintf("(forall ((%s Int)) (! (=> (tnode %s) (>= (s_len %s) 1)) :pattern (%s)))", n, n, sl, sl))
+	}
+}
+
+// astListDepth: the elements of a node's list are strictly less deep than the node
+func (g *gen) astListDepth(tf, name string) {
+	ifaceLists := map[string]bool{"CallExpr.Args": true, "CompositeLit.Elts": true, "BlockStmt.List": true, "CaseClause.List": true, "CaseClause.Body": true,
+		"CommClause.Body": true, "AssignStmt.Lhs": true, "AssignStmt.Rhs": true, "ReturnStmt.Results": true, "ValueSpec.Values": true, "GenDecl.Specs": true,
+		"File.Decls": true, "IndexListExpr.Indices": true}
+	n := g.freshName("av")
+	i := g.freshName("avi")
+	sl := app("select", name, n)
+	guard := and(app("<=", "0", i), app("<", i, app("s_len", sl)))
+	if ifaceLists[tf] {
+		e := g.heapInit(elemKey("Iface"), arr("Int", arr("Int", "Iface")))
+		el := app("select", app("select", e, app("s_base", sl)), sidx(app("s_off", sl), i))
+		g.assumeGlobal(fmt.Sprintf("(forall ((%s Int) (%s Int)) (! (=> (and (tnode %s) %s) (< (astdepth (i_val %s)) (astdepth %s))) :pattern (%s)))", n, i, n, guard, el, n, el))
+	} else {
+		e := g.heapInit(elemKey("Int"), arr("Int", arr("Int", "Int")))
+		el := app("select", app("select", e, app("s_base", sl)), sidx(app("s_off", sl), i))
+		g.assumeGlobal(fmt.Sprintf("(forall ((%s Int) (%s Int)) (! (=> (and (tnode %s) %s) (< (astdepth %s) (astdepth %s))) :pattern (%s)))", n, i, n, guard, el, n, el))
 	}
 }
 
